@@ -184,6 +184,11 @@ def gen(tier, rng):
     from tools.props import c20 as _c20
     longs = [render(b"250", [b"X-FEATURE-%02d some text to make the line longer" % k for k in range(n)], False) for n in (15, 50)]
     longs += [render(b"250", [b"y" * 600], False), render(b"550", [b"line %d" % k for k in range(50)], False)]
+    # negative replies whose text is longer than 512 octets, ASCII and with multi-byte characters at every offset parity: the
+    # error carries the whole text
+    longs += [render(b"550", [b"5.7.1 rejected by policy, line %03d of the explanation" % k for k in range(20)], False),
+              render(b"451", [("x" * (k % 3) + "é" * 30).encode() for k in range(12)], False),
+              render(b"554", [("€" * 25 + "y" * (k % 2)).encode() for k in range(9)], False)]
     for st in longs:
         for mode in "sa":
             cases.append(f"rr\t{mode}\t{hexs(st)}\t-")
